@@ -27,6 +27,7 @@ From V Require Import Gen.Special Model.Special Spec.Triggers.
 From V Require Import Gen.RtOutc Spec.RoundTrip.
 From V Require Import Model.RefDef Model.Blocks.
 From V Require Import Model.Inlines.
+From V Require Import Model.Parse.
 Extraction Language OCaml.
 Set Extraction KeepSingleton.
 
@@ -310,4 +311,9 @@ Extraction "model.ml"
   Inlines.mkOracle
   Inlines.fn_resolve
   Inlines.refdefs
+  Parse.parse_document_model
+  Parse.mkPO
+  Parse.inline_phase
+  Parse.footnote_phase
+  Parse.post_phase
 .
